@@ -48,7 +48,7 @@ def generate(seed: int, tier: str) -> dict:
     situation = gen_situation(ir, world, max_persons=5)
     inputs = gen_inputs(ir, world, p=0.4)
     kr = st["knobs"]
-    knobs = {"max_spiral_loops": kr.randint(1, 3)}
+    knobs = {"max_spiral_loops": pick(kr, [1, 1, 2, 3])}
     env = {}
     names = [v["name"] for v in world["variables"]]
     if chance(kr, 0.3):
